@@ -48,7 +48,9 @@ V3 == {Anch(<<Term(Group(x), q)>>) : x \in Alts(IF Wide THEN 3 ELSE 2), q \in Lo
 
 Inner == {OneCat(<<T(a)>>), OneCat(<<Term(a, QStar)>>), OneCat(<<Term(a, QOpt)>>), Alt(<<Cat(<<T(a)>>), Cat(<<>>)>>), Alt(<<Cat(<<>>), Cat(<<>>)>>), Alt(<<Cat(<<>>)>>)}
 V4 == {Anch(<<Term(Group(OneTerm(Term(Group(x), q1))), q2)>> \o tail) :
-         x \in Inner, q1 \in {QStar, QPlus, QOpt, Q(1, 2, FALSE)}, q2 \in {QStar, QPlus, Q(2, 2, FALSE), Q(2, Unbounded, FALSE)}, tail \in {<<>>, <<T(b)>>}}
+         x \in (IF Wide THEN Inner ELSE {OneCat(<<T(a)>>), OneCat(<<Term(a, QStar)>>), Alt(<<Cat(<<T(a)>>), Cat(<<>>)>>), Alt(<<Cat(<<>>)>>)}),
+         q1 \in {QStar, QOpt} \cup (IF Wide THEN {QPlus, Q(1, 2, FALSE)} ELSE {}),
+         q2 \in {QStar, Q(2, 2, FALSE)} \cup (IF Wide THEN {QPlus, Q(2, Unbounded, FALSE)} ELSE {}), tail \in {<<>>, <<T(b)>>}}
 
 DotStar == Term(Dot, QStar)
 V5 == {Anch(<<>>), Anch(<<DotStar>>), Anch(<<T(a), DotStar>>), Anch(<<DotStar, T(a)>>), Anch(<<T(a), DotStar, T(b)>>),
